@@ -4,6 +4,7 @@ import (
 	"context"
 	"fmt"
 	"net"
+	"reflect"
 	"sort"
 	"strings"
 	"time"
@@ -36,15 +37,15 @@ type Env struct {
 	Idx  int // run index within the batch
 	Log  *CapLog
 
-	Links    []*simnet.Link
-	LinkPlan func(l *simnet.Link)                   // applied to every new link (fault plan, chunking)
-	OnDial   func(l *simnet.Link)                   // e.g. spawn the server task
-	DialDeny func() error                           // permanent veto, evaluated on the dialling task (e.g. by task name)
-	DialErr  func(n int, addr string) error         // non-nil result makes the n-th dial fail
-	DialWait func(ctx context.Context, n int) error // may block (simulated) before the dial completes
-	Dials    []string
+	Links     []*simnet.Link
+	LinkPlan  func(l *simnet.Link)                   // applied to every new link (fault plan, chunking)
+	OnDial    func(l *simnet.Link)                   // e.g. spawn the server task
+	DialDeny  func() error                           // permanent veto, evaluated on the dialling task (e.g. by task name)
+	DialErr   func(n int, addr string) error         // non-nil result makes the n-th dial fail
+	DialWait  func(ctx context.Context, n int) error // may block (simulated) before the dial completes
+	Dials     []string
 	DialTasks []string // the task each dial was made on
-	CtxDials int
+	CtxDials  int
 
 	Oblig int // obligations the property's oracle evaluated in this run
 	Notes []string
@@ -130,6 +131,17 @@ func (c *CapLog) add(level, f string, a []interface{}) {
 	txt := fmt.Sprintf(f, a...)
 	if c.Scan != nil {
 		c.Scan(level, txt)
+		// "whatever logger is installed": one that encodes the arguments itself
+		// (JSON, a collector) never calls their String methods - it sees what
+		// is stored in them
+		c.Scan(level, "format string: "+f)
+		for i, x := range a {
+			var b strings.Builder
+			rawText(reflect.ValueOf(x), &b, 0)
+			if b.Len() > 0 {
+				c.Scan(level, fmt.Sprintf("argument %d as stored (%T): %s", i, x, b.String()))
+			}
+		}
 	}
 	if c.Keep {
 		c.Recs = append(c.Recs, LogRec{level, txt, c.S.Seq()})
@@ -143,6 +155,51 @@ func (c *CapLog) add(level, f string, a []interface{}) {
 			simrt.Sleep(time.Millisecond)
 		case 1, 2:
 			simrt.Sleep(0)
+		}
+	}
+}
+
+// rawText collects the string and byte-slice contents reachable from v without
+// going through any method of the value.
+func rawText(v reflect.Value, b *strings.Builder, depth int) {
+	if !v.IsValid() || depth > 6 {
+		return
+	}
+	switch v.Kind() {
+	case reflect.String:
+		b.WriteString(v.String())
+		b.WriteByte(' ')
+	case reflect.Slice, reflect.Array:
+		if v.Kind() == reflect.Slice && v.IsNil() {
+			return
+		}
+		if v.Type().Elem().Kind() == reflect.Uint8 {
+			bs := make([]byte, v.Len())
+			for i := range bs {
+				bs[i] = byte(v.Index(i).Uint())
+			}
+			b.Write(bs)
+			b.WriteByte(' ')
+			return
+		}
+		for i := 0; i < v.Len() && i < 64; i++ {
+			rawText(v.Index(i), b, depth+1)
+		}
+	case reflect.Ptr, reflect.Interface:
+		if !v.IsNil() {
+			rawText(v.Elem(), b, depth+1)
+		}
+	case reflect.Struct:
+		for i := 0; i < v.NumField(); i++ {
+			rawText(v.Field(i), b, depth+1)
+		}
+	case reflect.Map:
+		if v.Len() > 64 {
+			return
+		}
+		for _, k := range v.MapKeys() {
+			rawText(k, b, depth+1)
+			rawText(v.MapIndex(k), b, depth+1)
 		}
 	}
 }
